@@ -15,16 +15,6 @@ import (
 // Every implicit Go failure (index/slice bounds, nil dereference, failed type assertion,
 // division by zero, explicit panic) on any feasible path is reported by the executor.
 
-func vhProto() *PortalProtocol {
-	return &PortalProtocol{
-		table:           &Table{},
-		protocolName:    "verif",
-		currentVersions: protocolVersions{0, 1},
-		versionsCache:   vhVersionCache(),
-		contentQueue:    make(chan *ContentElement, 1),
-	}
-}
-
 // TALKREQ dispatch: any payload 0..L bytes; the per-message handlers behind the decoders are
 // arbitrary (they have their own harnesses).
 //
